@@ -674,6 +674,10 @@ func ruleL16(p *Prog, r *Report) {
 			if exprHasCallNamed(ret.Results[0], map[string]bool{"Size": true, "ByteSize": true}, 0, map[ssa.Value]bool{}) {
 				children++
 			}
+			if subtractsCall(ret.Results[0], map[string]bool{"Size": true, "ByteSize": true}, false, 0) {
+				good = false
+				detail = "subtracts the size of the content instead of adding it"
+			}
 		}
 		if good && children == 0 {
 			good = false
@@ -704,6 +708,25 @@ func exprHasIntParam(v ssa.Value, depth int, seen map[ssa.Value]bool) bool {
 				return true
 			}
 		}
+	}
+	return false
+}
+
+// subtractsCall: a call of one of the named methods is a negative term of the expression.
+func subtractsCall(v ssa.Value, names map[string]bool, neg bool, depth int) bool {
+	if v == nil || depth > 20 {
+		return false
+	}
+	switch x := canonConv(v).(type) {
+	case *ssa.BinOp:
+		switch x.Op {
+		case token.ADD:
+			return subtractsCall(x.X, names, neg, depth+1) || subtractsCall(x.Y, names, neg, depth+1)
+		case token.SUB:
+			return subtractsCall(x.X, names, neg, depth+1) || subtractsCall(x.Y, names, !neg, depth+1)
+		}
+	case *ssa.Call:
+		return neg && names[calleeName(x)]
 	}
 	return false
 }
